@@ -75,6 +75,7 @@ const (
 	kFifo
 	kPrio
 	kFilter
+	kDupErr // (audit, appended so that the numbering of older replays stays valid) header.Append Content-Length dup: rejected on requests and responses like kErr, but EVERY such leaf returns the same error text
 )
 
 const (
@@ -418,6 +419,8 @@ func kindName(nd *node) string {
 		return "err"
 	case kHostErr:
 		return "hosterr"
+	case kDupErr:
+		return "duperr"
 	case kMarkH:
 		return "markH"
 	case kMarkU:
@@ -441,7 +444,7 @@ func shape(nd *node) string {
 	rec = func(x *node) {
 		sb.WriteString(kindName(x))
 		sb.WriteString(scopeShape[x.Scope])
-		if x.Kind >= kFifo {
+		if x.Kind == kFifo || x.Kind == kPrio || x.Kind == kFilter {
 			sb.WriteByte('(')
 			for i, k := range x.Kids {
 				if i > 0 {
@@ -531,7 +534,7 @@ func (r *renderer) node(nd *node) {
 	}
 	name := ""
 	switch nd.Kind {
-	case kProbe, kErr, kHostErr, kMarkH:
+	case kProbe, kErr, kHostErr, kMarkH, kDupErr:
 		name = "header.Append"
 	case kMarkU:
 		name = "url.Modifier"
@@ -561,6 +564,9 @@ func (r *renderer) node(nd *node) {
 		r.field(&first, `"name":"Content-Length","value":"e`+strconv.Itoa(nd.ID)+`"`)
 	case kHostErr:
 		r.field(&first, `"name":"Host","value":"other.example"`)
+		r.field(&first, sc)
+	case kDupErr:
+		r.field(&first, `"name":"Content-Length","value":"dup"`)
 		r.field(&first, sc)
 	case kMarkH:
 		r.field(&first, `"name":"X-Cond","value":"yes"`)
@@ -772,7 +778,10 @@ func buildResponse(c [nFilters]bool, multi int) *http.Response {
 // outcome, reference interpreter, implementation runner
 // ---------------------------------------------------------------------------------------------------------
 
-const hostErrID = -1
+const (
+	hostErrID = -1
+	dupErrID  = -2 // every kDupErr leaf: the error multiset counts how many of them were reported
+)
 
 type outcome struct {
 	Trace  []int  `json:"trace"`  // ordered ids written to the trace header
@@ -850,6 +859,8 @@ func interp(nd *node, st *mstate) []int {
 		if st.bit == reqBit {
 			return []int{hostErrID}
 		}
+	case kDupErr:
+		return []int{dupErrID}
 	case kMarkH:
 		st.yes++
 		st.cond[fHeader] = true
@@ -981,6 +992,8 @@ func observe(reqmod martian.RequestModifier, resmod martian.ResponseModifier, m 
 		switch {
 		case s == "proxyutil: illegal header multiple: Host":
 			o.Errs = append(o.Errs, hostErrID)
+		case strings.HasPrefix(s, `strconv.ParseInt: parsing "dup"`):
+			o.Errs = append(o.Errs, dupErrID)
 		case strings.HasPrefix(s, `strconv.ParseInt: parsing "e`):
 			t := strings.TrimPrefix(s, `strconv.ParseInt: parsing "e`)
 			id, e2 := strconv.Atoi(t[:strings.IndexByte(t, '"')])
@@ -1741,7 +1754,7 @@ func main() {
 		doReplay(p)
 	}
 	if len(os.Args) > 1 && os.Args[1] == "counts" {
-		for _, a := range []*alphabet{alphaFull, alphaMid, alphaSmall, alphaTiny, alphaExt, alphaExtMid} {
+		for _, a := range []*alphabet{alphaFull, alphaMid, alphaSmall, alphaTiny, alphaExt, alphaExtMid, alphaAgg} {
 			fmt.Println(a.name, a.count(6)[1:])
 		}
 		return
@@ -1767,13 +1780,14 @@ func main() {
 			{"prefix", alphaExt, []int{1, 2}, false, false},
 			{"handler", alphaExt, []int{1, 2}, true, false},
 			{"handler", alphaExtMid, []int{3}, true, false},
+			{"eval", alphaAgg, []int{1, 2, 3, 4, 5, 6}, false, false},
 			{"spell", alphaFull, []int{1, 2, 3}, false, false},
 			{"spell", alphaExt, []int{1, 2}, false, false},
 		}
 		families = []family{prioValues("prio_values", extremePrios, 4, true), prioValues("prio_values_probes", extremePrios, 5, false), prioWide(8), fifoWide(12), prioEntries(5)}
 		entryRejectWidth = 4
 		bounds = "evaluation: all trees with <=4 nodes over the full alphabet, all trees with exactly 5 nodes over the mid alphabet, exactly 6 nodes over the tiny alphabet (each reduced alphabet is a subset of the next larger one, so their smaller sizes are already covered); rejection/reconfiguration through the handler: full alphabet <=3 nodes, small alphabet 4 nodes; all document prefixes for <=2 nodes" +
-			"; audit extensions: evaluation of all trees with <=3 nodes over the ext alphabet and exactly 4 nodes over the extmid alphabet (remaining registered filters), flat priority groups with <=4 children (probe or erroring leaf) and <=5 children (probes) over 8 extreme int64 priorities, flat priority groups of width <=8 over 3 levels, flat fifo groups of width <=12; handler: ext alphabet <=2 nodes, extmid 3 nodes; scope spellings (null for absent, duplicated entries) at every node of full <=3 and ext <=2; two-valued condition sources (match first / later / none) on full <=3 and ext <=3; priority entry spellings (key omitted, null) on flat groups of width 2..5, entries without modifier on width 2..4; the extended rejection variants and the non-POST / failing-body requests on full <=2, mid 3, ext <=2, extmid 3; prefixes of ext documents with <=2 nodes"
+			"; audit extensions: evaluation of all trees with <=3 nodes over the ext alphabet and exactly 4 nodes over the extmid alphabet (remaining registered filters), flat priority groups with <=4 children (probe or erroring leaf) and <=5 children (probes) over 8 extreme int64 priorities, flat priority groups of width <=8 over 3 levels, flat fifo groups of width <=12; handler: ext alphabet <=2 nodes, extmid 3 nodes; scope spellings (null for absent, duplicated entries) at every node of full <=3 and ext <=2; error multisets (erroring leaves with one common text in flat and nested halting / aggregating fifo and priority groups, agg alphabet) <=6 nodes; two-valued condition sources (match first / later / none) on full <=3 and ext <=3; priority entry spellings (key omitted, null) on flat groups of width 2..5, entries without modifier on width 2..4; the extended rejection variants and the non-POST / failing-body requests on full <=2, mid 3, ext <=2, extmid 3; prefixes of ext documents with <=2 nodes"
 	} else {
 		phases = []phase{
 			{"eval", alphaFull, []int{1, 2, 3}, false, true},
@@ -1785,13 +1799,14 @@ func main() {
 			{"eval", alphaExt, []int{1, 2, 3}, false, true},
 			{"handler", alphaExt, []int{1}, true, false},
 			{"handler", alphaExtMid, []int{2}, true, false},
+			{"eval", alphaAgg, []int{1, 2, 3, 4, 5}, false, false},
 			{"spell", alphaFull, []int{1, 2}, false, false},
 			{"spell", alphaMid, []int{3}, false, false},
 		}
 		families = []family{prioValues("prio_values", extremePrios, 3, true), prioWide(6), fifoWide(9), prioEntries(4)}
 		entryRejectWidth = 3
 		bounds = "evaluation: all trees with <=3 nodes over the full alphabet, exactly 4 nodes over the mid alphabet and exactly 5 nodes over the small alphabet (each reduced alphabet is a subset of the next larger one); rejection/reconfiguration through the handler: full alphabet <=2 nodes, mid alphabet 3 nodes; all document prefixes for <=2 nodes" +
-			"; audit extensions: evaluation of all trees with <=3 nodes over the ext alphabet (remaining registered filters), flat priority groups with <=3 children over 8 extreme int64 priorities, flat priority groups of width <=6 over 3 levels, flat fifo groups of width <=9; handler: ext alphabet 1 node, extmid 2 nodes; scope spellings (null for absent, duplicated entries) at every node of full <=2 and mid 3; two-valued condition sources (match first / later / none) on full <=3 and ext <=3; priority entry spellings (key omitted, null) on flat groups of width 2..4, entries without modifier on width 2..3; the extended rejection variants and the non-POST / failing-body requests on full <=2, ext 1, extmid 2"
+			"; audit extensions: evaluation of all trees with <=3 nodes over the ext alphabet (remaining registered filters), flat priority groups with <=3 children over 8 extreme int64 priorities, flat priority groups of width <=6 over 3 levels, flat fifo groups of width <=9; handler: ext alphabet 1 node, extmid 2 nodes; scope spellings (null for absent, duplicated entries) at every node of full <=2 and mid 3; error multisets (erroring leaves with one common text in flat and nested halting / aggregating fifo and priority groups, agg alphabet) <=5 nodes; two-valued condition sources (match first / later / none) on full <=3 and ext <=3; priority entry spellings (key omitted, null) on flat groups of width 2..4, entries without modifier on width 2..3; the extended rejection variants and the non-POST / failing-body requests on full <=2, ext 1, extmid 2"
 	}
 	total := &counters{behaviours: map[uint64]struct{}{}, perPhase: map[string]int64{}}
 	var mu sync.Mutex
@@ -1850,7 +1865,7 @@ func main() {
 	rep.Coverage["rule"] = "every tree with exactly n nodes of the stated alphabet is generated (generator count cross-checked against a closed-form count), rendered to JSON, parsed by parse.FromJSON and run on both message kinds x every truth assignment of the filter conditions occurring in it; a tree is non-trivial when it has >=2 nodes, its expected outcome is non-empty for some message and differs between messages (kind or condition dependent)"
 	rep.Coverage["exhaustive"] = true
 	rep.Coverage["bounds"] = bounds
-	alphas := []string{alphaFull.describe, alphaMid.describe, alphaSmall.describe, alphaTiny.describe, alphaExt.describe, alphaExtMid.describe}
+	alphas := []string{alphaFull.describe, alphaMid.describe, alphaSmall.describe, alphaTiny.describe, alphaExt.describe, alphaExtMid.describe, alphaAgg.describe}
 	for _, fam := range families {
 		alphas = append(alphas, fam.describe)
 	}
@@ -1865,7 +1880,7 @@ func main() {
 		"where a condition's source is multi-valued the condition holds iff any value matches, for the filters whose documentation says so (querystring.Filter: any value of the parameter, or mere presence when only a name is configured; header.Filter: any header line equal to the value; cookie.Filter: any cookie of that name and value); comma lists inside one header line, repeated lines for header.RegexFilter and empty configured values of header/cookie filters are not generated (documentation silent)",
 		"a node object names exactly one modifier (the single-key rule of parse.FromJSON): two keys, no key, or a JSON value that is not an object count as malformed; scope names are exactly the lower-case strings \"request\" and \"response\"; a priority is a JSON integer in the int64 range; aggregateErrors is a JSON boolean",
 		"a request to the configuration endpoint that is answered with a non-2xx status is a rejected reconfiguration (nothing may change); one answered 2xx must put the configuration it carries fully in force; a POST whose body could not be read to the end can never be accepted",
-		"errors are identified by their text (the erroring leaf's text carries its node id); a MultiError is read through Errors(), nested ones recursively",
+		"errors are identified by their text (the erroring leaf's text carries its node id; the same-text erroring leaf returns one fixed text from every instance); a MultiError is read through Errors(), nested ones recursively; error MULTISETS are compared (count per text), order is not",
 		"leaf behaviour (header append on X-Trace/X-Cond, Content-Length and Host special cases, url.Modifier, status.Modifier) is taken as given; the property under test is the composition",
 		"rejection cases: unknown names, scope strings outside {request,response}, scopes a node type does not implement, syntactically invalid JSON and (audit extension) the wrong-type / two-key variants listed under rejection_variants; wrong types of the filters' own condition fields and \"else\":null are not examined",
 	}
